@@ -37,7 +37,7 @@ template <InvCompType IT> struct InvPiv { static constexpr bool value = IT == In
 template <class T, size_t N, InvCompType IT, int FAM>
 void inv_case(Ctx& c) {
     Rng g = c.rng();
-    Tensor<T, N, N> A;
+    VP_OPERAND((Tensor<T, N, N>), A);
     for (int it = 0; it < 10; ++it) {
         LD kappa = FAM == 2 ? (it % 3 == 0 ? 1 : (it % 3 == 1 ? 10 : 1000)) : 1;
         fill_family(A.data(), N, FAM, kappa, g);
@@ -50,7 +50,7 @@ void inv_case(Ctx& c) {
 // lazy inv(A) in assignments
 template <class T, size_t N>
 void inv_lazy(Ctx& c) {
-    Rng g = c.rng(); Tensor<T, N, N> A;
+    Rng g = c.rng(); VP_OPERAND((Tensor<T, N, N>), A);
     for (int it = 0; it < 10; ++it) {
         la::fill_dominant(A.data(), N, g);
         { Framed<Tensor<T, N, N>> X; paint(X->data(), N * N); VP_LIB(*X = inv(A)); judge_inverse(c, A.data(), X->data(), N, false, "X=inv(A)"); X.verify(c, "X=inv(A)"); }
@@ -62,7 +62,7 @@ void inv_lazy(Ctx& c) {
 // triangular inverses
 template <class T, size_t N>
 void tinv_case(Ctx& c) {
-    Rng g = c.rng(); Tensor<T, N, N> A;
+    Rng g = c.rng(); VP_OPERAND((Tensor<T, N, N>), A);
     for (int it = 0; it < 10; ++it) {
         // unit lower triangular, moderately sized multipliers
         for (size_t i = 0; i < N; ++i) for (size_t j = 0; j < N; ++j) A.data()[i * N + j] = i == j ? T(1) : (j < i ? (T)g.real(-0.5, 0.5) : T(0));
@@ -137,7 +137,7 @@ struct LUCase {
     static void call(const Tensor<T, N, N>& A, Tensor<T, N, N>& L, Tensor<T, N, N>& U, Tensor<size_t, N>& Pv, Tensor<T, N, N>& Pm, If<true>, int penc) { if (penc == 1) lu<LT>(A, L, U, Pv); else lu<LT>(A, L, U, Pm); }
     static void run(Ctx& c) {
         Rng g = c.rng();
-        Tensor<T, N, N> A;
+        VP_OPERAND((Tensor<T, N, N>), A);
         for (int it = 0; it < 10; ++it) {
             fill_family(A.data(), N, FAM, 10, g);
             Framed<Tensor<T, N, N>> L, U; Tensor<size_t, N> Pv; Tensor<T, N, N> Pm; paint(L->data(), N * N); paint(U->data(), N * N);
@@ -194,7 +194,7 @@ template <class T, size_t N, SolveCompType ST, size_t K, int FAM>
 struct SolveCase {
     static void run(Ctx& c) { run_impl(c, If<(K == 0)>()); }
     static void run_impl(Ctx& c, If<true>) {      // vector right-hand side
-        Rng g = c.rng(); Tensor<T, N, N> A; Tensor<T, N> b;
+        Rng g = c.rng(); VP_OPERAND((Tensor<T, N, N>), A); VP_OPERAND((Tensor<T, N>), b);
         for (int it = 0; it < 10; ++it) {
             fill_family(A.data(), N, FAM, it % 2 ? 10 : 100, g); fill_real(b.data(), N, g);
             { Framed<Tensor<T, N>> x; paint(x->data(), N); VP_LIB(*x = solve<ST>(A, b)); judge_solve(c, A.data(), x->data(), b.data(), N, 1, SolvePiv<ST>::value, "solve<ST>(A,b)"); x.verify(c, "x"); }
@@ -204,7 +204,7 @@ struct SolveCase {
         c.nontrivial = true;
     }
     static void run_impl(Ctx& c, If<false>) {     // N x K right-hand side
-        Rng g = c.rng(); Tensor<T, N, N> A; Tensor<T, N, K> B;
+        Rng g = c.rng(); VP_OPERAND((Tensor<T, N, N>), A); VP_OPERAND((Tensor<T, N, K>), B);
         for (int it = 0; it < 10; ++it) {
             fill_family(A.data(), N, FAM, it % 2 ? 10 : 100, g); fill_real(B.data(), N * K, g);
             { Framed<Tensor<T, N, K>> X; paint(X->data(), N * K); VP_LIB(*X = solve<ST>(A, B)); judge_solve(c, A.data(), X->data(), B.data(), N, K, SolvePiv<ST>::value, "solve<ST>(A,B)"); X.verify(c, "X"); }
@@ -238,7 +238,7 @@ struct QRCase {
     static void call(const Tensor<T, N, N>& A, Tensor<T, N, N>& Q, Tensor<T, N, N>& R, Tensor<size_t, N>&, Tensor<T, N, N>&, If<false>) { qr<QT>(A, Q, R); }
     static void call(const Tensor<T, N, N>& A, Tensor<T, N, N>& Q, Tensor<T, N, N>& R, Tensor<size_t, N>& Pv, Tensor<T, N, N>& Pm, If<true>) { if (PENC == 1) qr<QT>(A, Q, R, Pv); else qr<QT>(A, Q, R, Pm); }
     static void run(Ctx& c) {
-        Rng g = c.rng(); Tensor<T, N, N> A;
+        Rng g = c.rng(); VP_OPERAND((Tensor<T, N, N>), A);
         constexpr bool piv = QT == QRCompType::MGSRPiv;
         for (int it = 0; it < 12; ++it) {
             LD kappa = it % 4 == 0 ? 1 : (it % 4 == 1 ? 10 : (it % 4 == 2 ? 100 : 1000));
